@@ -73,10 +73,10 @@ def check_generated_knots(ctx):
     once more leaves every evaluated point where it was and raises that knot's multiplicity by one"""
     from geomdl import BSpline, knotvector, operations
     ctx.full = {"generated_knots": True}
-    for p_, n_ in ((3, 13), (2, 9), (3, 11), (2, 12), (4, 10)):
+    for p_, n_ in ((3, 13), (2, 9), (3, 11), (2, 12), (4, 10), (3, 70), (2, 130)):
         kv = knotvector.generate(p_, n_)
         m_ = n_ - p_
-        for k_ in range(1, m_):
+        for k_ in (range(1, m_) if n_ < 64 else (1, m_ // 3, m_ // 2, m_ - 2, m_ - 1)):
             u = float(k_) / m_
             small = {"degree": p_, "ctrlpts": n_, "u": "%d/%d" % (k_, m_)}
             tg = ["generated_knot_vector", "existing_knot", "p=%d" % p_]
